@@ -194,12 +194,17 @@ def type_code_coverage_case():
     """every basic type code - the rarely used ones included (h, g, o, d, n, q) - alone, in an array, as a dict value and in a
     struct, for a method argument, a method result, a signal argument and a property"""
     from txdbus import interface, introspection
-    for code in 'ybnqiuxtdsogvh':
+    for code in 'ybnqiuxtdsogvh' + 'WN':
         forms = [code, 'a' + code, 'a{s' + code + '}', '(' + code + 'i)', 'a(' + code + ')']
+        if code == 'W':        # wide but shallow types: many arrays / structs side by side, little nesting
+            forms = ['(' + 'au' * 40 + ')', 'a(' + '(dd)' * 36 + ')', '(' + '(i)' * 50 + ')']
+        if code == 'N':        # deep types: nesting to the limit
+            forms = ['a' * 31 + 'i', '(' * 31 + 'i' + ')' * 31, 'a{s' * 15 + 'v' + '}' * 15]
         members = []
         for k, sg in enumerate(forms):
             members += [interface.Method('M%d' % k, arguments=sg, returns=sg), interface.Signal('S%d' % k, sg), interface.Property('P%d' % k, sg)]
-        name = 'org.verif.T_' + code
+        # interface names that are prefixes / namesakes of the standard ones are interfaces of their own
+        name = {'y': 'org.freedesktop.DBus', 'b': 'org.freedesktop', 'n': 'org.freedesktop.DBus.Prop', 'q': 'org.freedesktop.DBus.ObjectManage'}.get(code, 'org.verif.T_' + code)
         iface = interface.DBusInterface(name, *members, noRegister=True)
         xml = introspection.generateIntrospectionXML('/obj', {'/obj': FakeObject([iface])})
         try:
@@ -270,14 +275,20 @@ def class_hierarchy_case():
         idr = interface.DBusInterface('org.verif.DerivedI', interface.Method('D', returns='ai'), interface.Property('P', 'u'), noRegister=True)
         Base = type('XBase', (objects.DBusObject,), {'dbusInterfaces': [ib]})
         Derived = type('XDerived', (Base,), {'dbusInterfaces': [idr]})
-        objs = [Base('/b'), Derived('/d')]
-        want = [{'org.verif.BaseI'}, {'org.verif.BaseI', 'org.verif.DerivedI'}]
+        # a plain mix-in class (not a DBusObject itself) contributing an interface, listed after the exporting base class
+        imx = interface.DBusInterface('org.verif.MixI', interface.Method('X'), noRegister=True)
+        Mixin = type('XMixin', (object,), {'dbusInterfaces': [imx]})
+        Mixed = type('XMixed', (Base, Mixin), {})
+        Direct = type('XDirect', (objects.DBusObject, Mixin), {})
+        objs = [Base('/b'), Derived('/d'), Mixed('/m'), Direct('/x')]
+        want = [{'org.verif.BaseI'}, {'org.verif.BaseI', 'org.verif.DerivedI'}, {'org.verif.BaseI', 'org.verif.MixI'}, {'org.verif.MixI'}]
+        order = tuple(order) + (2, 3)
         for k in order:
             o = objs[k]
             xml = introspection.generateIntrospectionXML(o.getObjectPath(), {o.getObjectPath(): o})
             got = {i.name for i in introspection.getInterfacesFromXML(xml, True) if i.name.startswith('org.verif.')}
             if got != want[k]:
-                return 'introspecting the %s object %s: interfaces %r, its classes declare %r' % (('base', 'derived')[k], ('first', 'second')[order.index(k)], sorted(got), sorted(want[k]))
+                return 'introspecting the %s object (#%d in the order %r): interfaces %r, its classes declare %r' % (('base', 'derived', 'base + mix-in', 'DBusObject + mix-in')[k], order.index(k), order, sorted(got), sorted(want[k]))
     return None
 
 
